@@ -3,7 +3,7 @@
    by the actual bits and the formal parameters by the actual values, in order ("every call site is replaced by the body of
    its definition with actuals substituted for formals") -- added to the whole-program judgement of Lang/BroadcastProofs.v. *)
 From Coq Require Import ZArith List Bool String Lia.
-From Verif Require Import Aexp BGate PyVal CastPrim Ast State GatesGen GateLib Unroll ResolveProofs Depth DepthModel ExprProofs FixProofs ParamProofs LoopProofs BroadcastProofs ModUnrollProofs.
+From Verif Require Import Aexp BGate PyVal CastPrim Ast State GatesGen GateLib Unroll ResolveProofs Depth DepthModel ExprProofs FixProofs ParamProofs LoopProofs BroadcastProofs ModUnrollProofs LoopModProofs.
 Import ListNotations.
 Open Scope Z_scope.
 
@@ -452,7 +452,11 @@ Definition gtop_step (env : renv) (G : genv) (stm : stmt) : option (renv * genv 
           | None =>
               match mod_ok env G stm with
               | Some (out, evs) => Some (env, G, out, evs)
-              | None => match ptop_step env stm with Some (env', out, evs) => Some (env', G, out, evs) | None => None end
+              | None =>
+                  match gloop_ok env G stm with
+                  | Some (out, evs) => Some (env, G, out, evs)
+                  | None => match ptop_step env stm with Some (env', out, evs) => Some (env', G, out, evs) | None => None end
+                  end
               end
           end
       end
@@ -518,7 +522,10 @@ Proof.
                                   | None =>
                                   match mod_ok env G stm with
                                   | Some (out, evs) => Some (env, G, out, evs)
-                                  | None => match ptop_step env stm with Some (env', out, evs) => Some (env', G, out, evs) | None => None end
+                                  | None => match gloop_ok env G stm with
+                                            | Some (out, evs) => Some (env, G, out, evs)
+                                            | None => match ptop_step env stm with Some (env', out, evs) => Some (env', G, out, evs) | None => None end
+                                            end
                                   end end
                         end) = Some (env', G', out, ev1) -> 
                        exists s1, visit_stmt false [] fuel stm s = Ok (out, s1) /\ Top env' s1 /\
@@ -547,6 +554,13 @@ Proof.
           { injection Eo as <- <- <- <-. destruct fuel as [|f]; [lia|].
             destruct (mod_fix false f env G s stm mo me (T_regs _ _ T) HG Emo) as (s1 & E1 & D1 & S1).
             pose proof (mod_ok_ops env G stm mo me Emo) as Ops. destruct (total_ops env mo Ops) as [Tq Tc].
+            destruct (DE_counts _ _ D1) as [Nq Nc]. destruct (gframe_DE _ _ D1) as [Fg Fs].
+            exists s1. split; [exact E1|]. split; [eapply Top_DE; eauto|]. split; [lia|]. split; [lia|]. split; [exact S1|].
+            split; [intros r0; now apply wf_flat_ops|]. split; congruence. }
+          destruct (gloop_ok env G stm) as [[lo le]|] eqn:Elo.
+          { injection Eo as <- <- <- <-. destruct fuel as [|[|f]]; try lia.
+            destruct (gloop_fix f env G s stm lo le T HG Elo) as (s1 & E1 & D1 & S1).
+            pose proof (gloop_ok_ops env G stm lo le Elo) as Ops. destruct (total_ops env lo Ops) as [Tq Tc].
             destruct (DE_counts _ _ D1) as [Nq Nc]. destruct (gframe_DE _ _ D1) as [Fg Fs].
             exists s1. split; [exact E1|]. split; [eapply Top_DE; eauto|]. split; [lia|]. split; [lia|]. split; [exact S1|].
             split; [intros r0; now apply wf_flat_ops|]. split; congruence. }
@@ -669,7 +683,10 @@ Proof.
                                   | None =>
                                   match mod_ok env G stm with
                                   | Some (out, evs) => Some (env, G, out, evs)
-                                  | None => match ptop_step env stm with Some (env', out, evs) => Some (env', G, out, evs) | None => None end
+                                  | None => match gloop_ok env G stm with
+                                            | Some (out, evs) => Some (env, G, out, evs)
+                                            | None => match ptop_step env stm with Some (env', out, evs) => Some (env', G, out, evs) | None => None end
+                                            end
                                   end end
                         end) = Some (env', G', out, ev1) ->
                        exists s1, visit_stmt true [] fuel stm s = Ok ([], s1) /\ Top env' s1 /\
@@ -692,6 +709,10 @@ Proof.
           { injection Eo as <- <- <- <-. destruct fuel as [|f]; [lia|].
             destruct (mod_fix true f env G s stm mo me (T_regs _ _ T) HG Emo) as (s1 & E1 & D1 & S1).
             exists s1. split; [exact E1|]. apply HDE; auto. eapply mod_ok_ops; eauto. }
+          destruct (gloop_ok env G stm) as [[glo gle]|] eqn:Elo.
+          { injection Eo as <- <- <- <-. destruct fuel as [|[|f]]; try lia.
+            destruct (gloop_fix_validate f env G s stm glo gle T HG Elo) as (s1 & E1 & D1).
+            exists s1. split; [exact E1|]. apply HDE; auto. eapply gloop_ok_ops; eauto. }
           destruct (ptop_step env stm) as [[[env'' out''] evs'']|] eqn:Ep; [|discriminate Eo]. injection Eo as <- <- <- <-.
           unfold ptop_step in Ep. destruct (loop_ok env stm) as [lo|] eqn:El.
           + injection Ep as <- <- <-. destruct fuel as [|[|f]]; try lia.
